@@ -816,7 +816,30 @@ func (self FunctionType) String() string {
 }
 func (self FunctionType) Span() errors.Span { return self.Range }
 func (self FunctionType) SetSpan(span errors.Span) Type {
-	return NewFunctionType(self.Params, span, self.ReturnType.SetSpan(span), span)
+	return NewFunctionType(self.paramsWithSpan(span), span, self.ReturnType.SetSpan(span), span)
+}
+
+// Like the return type, the types of the parameters move to the new span.
+func (self FunctionType) paramsWithSpan(span errors.Span) FunctionTypeParamKind {
+	switch self.Params.Kind() {
+	case NormalFunctionTypeParamKindIdentifierKind:
+		oldParams := self.Params.(NormalFunctionTypeParamKindIdentifier).Params
+		newParams := make([]FunctionTypeParam, len(oldParams))
+		for idx, param := range oldParams {
+			param.Type = param.Type.SetSpan(span)
+			newParams[idx] = param
+		}
+		return NewNormalFunctionTypeParamKind(newParams)
+	case VarArgsFunctionTypeParamKindIdentifierKind:
+		oldParams := self.Params.(VarArgsFunctionTypeParamKindIdentifier)
+		newTypes := make([]Type, len(oldParams.ParamTypes))
+		for idx, typ := range oldParams.ParamTypes {
+			newTypes[idx] = typ.SetSpan(span)
+		}
+		return NewVarArgsFunctionTypeParamKind(newTypes, oldParams.RemainingType.SetSpan(span))
+	default:
+		panic("A new function parameter type kind was introduced without updating this code")
+	}
 }
 func (self FunctionType) SetSpanAdvanced(span errors.Span, paramsSpan errors.Span) Type {
 	var returnType Type
